@@ -407,10 +407,14 @@ func (n numDatum) Literal(context string) string {
 		return "Infinity"
 	case math.IsInf(n.num, -1):
 		return "-Infinity"
+	case math.IsNaN(n.num):
+		return "NaN"
 	}
 
-	// ... then the easy ones.
-	return fmt.Sprintf("%v", n.num)
+	// ... then the easy ones.  XPath 1.0 (4.2) never uses exponent
+	// notation: integers print without a decimal point, everything else
+	// with the digits needed to tell the value apart from its neighbours.
+	return strconv.FormatFloat(n.num, 'f', -1, 64)
 }
 
 func (n numDatum) Nodeset(context string) []xutils.XpathNode {
